@@ -28,6 +28,9 @@ type vf05Sec struct {
 type vf05Case struct {
 	Secs   []vf05Sec `json:"secs"`
 	Rsv    int       `json:"reservations"`
+	// frames behind the reserved pages, in the order the pages were reserved (the window grows downwards); when empty
+	// reservation i is backed by frame 0x5000+i
+	RsvFrames []uint64 `json:"reservation_frames,omitempty"`
 	FailAt int       `json:"fail_at"`
 	KOff   uint64    `json:"kernel_offset"`
 }
@@ -45,12 +48,18 @@ func vf05Run(run *verifrt.Run, m *vfMMU, c vf05Case) {
 	earlyReserveLastUsed = tempMappingAddr
 	protectReservedZeroedPage = false
 	rsvFrames := map[uintptr]uintptr{}
+	if len(c.RsvFrames) != 0 {
+		c.Rsv = len(c.RsvFrames)
+	}
 	for i := 0; i < c.Rsv; i++ {
 		a, err := EarlyReserveRegion(4096)
 		if err != nil {
 			panic(err)
 		}
 		f := mm.Frame(0x5000 + i)
+		if len(c.RsvFrames) != 0 {
+			f = mm.Frame(c.RsvFrames[i])
+		}
 		if err := Map(mm.PageFromAddress(a), f, FlagPresent|FlagRW); err != nil {
 			panic("verif: cannot set up an early reservation: " + err.Message)
 		}
@@ -238,6 +247,26 @@ func TestVerifC05(t *testing.T) {
 		next := (bases[0] + a.off + a.size + 4095) &^ 4095
 		one(vf05Case{Secs: []vf05Sec{{bases[0] + a.off, a.size, a.flags}, {next, 4096, 3}, {bases[4], 1, uint32(i % 8)}}, Rsv: 2, KOff: vf05KOff})
 	}
+	// what backs the reserved window: every assignment of frames from a small alphabet to 1..4 reserved pages (ascending
+	// and descending runs, runs with a foreign frame in the middle, repeated frames), with and without a section
+	rsvAlpha := []uint64{0x300, 0x301, 0x302, 0x303, 0x180}
+	var rsvRec func(cur []uint64)
+	rsvRec = func(cur []uint64) {
+		if len(cur) > 0 {
+			fr := append([]uint64(nil), cur...)
+			one(vf05Case{Secs: []vf05Sec{{bases[0] + 0x10, 4096, 3}}, RsvFrames: fr, KOff: vf05KOff})
+			if len(cur) >= 3 {
+				one(vf05Case{RsvFrames: fr, KOff: vf05KOff})
+			}
+		}
+		if len(cur) == 4 {
+			return
+		}
+		for _, f := range rsvAlpha {
+			rsvRec(append(cur, f))
+		}
+	}
+	rsvRec(nil)
 	// no sections at all (zero-sized sections are filtered out by the multiboot decoder, C10)
 	one(vf05Case{KOff: vf05KOff})
 	// allocation failure at each allocation point of representative configurations
@@ -281,6 +310,6 @@ func TestVerifC05(t *testing.T) {
 			one(vf05Case{Secs: []vf05Sec{{koff + 0x200000 + sh.off, sh.size, sh.flags}, {koff - 0x100000 + 0x10, 100, 7}}, Rsv: 1, KOff: koff})
 		}
 	}
-	run.Finish(true, "every single section over the shape set (start offset {0,1,0x10,0x800,0xff0,0xfff} x sizes ending one byte before / at / one / two bytes after a page boundary over 1-3 pages x W/A/X flag sets) x 5 bases (below / at / above the kernel offset, second P3 entry) x reservations {0,1,3}; section pairs (full product in thorough, a fixed 1-in-23 sub-lattice in quick); adjacent-page triples; allocation failure at each of the first 14 allocations of 3 configurations (thorough: at each of the first 8 allocations of every single-section shape; 27k three-section sets; sections of 16/511/512/513 pages); 3 kernel offsets",
+	run.Finish(true, "every single section over the shape set (start offset {0,1,0x10,0x800,0xff0,0xfff} x sizes ending one byte before / at / one / two bytes after a page boundary over 1-3 pages x W/A/X flag sets) x 5 bases (below / at / above the kernel offset, second P3 entry) x reservations {0,1,3}; every assignment of 5 frames (two runs and a foreign frame) to 1-4 reserved pages; section pairs (full product in thorough, a fixed 1-in-23 sub-lattice in quick); adjacent-page triples; allocation failure at each of the first 14 allocations of 3 configurations (thorough: at each of the first 8 allocations of every single-section shape; 27k three-section sets; sections of 16/511/512/513 pages); 3 kernel offsets",
 		"distinct by (mapped pages, NX pages, RW pages, reservations, sections) outcome class")
 }
